@@ -26,7 +26,7 @@ type C10Step struct {
 }
 
 type C10Case struct {
-	Flavour   int       `json:"flavour"` // 0 plain, 1 monotonic, 2 commit tracking + RestoreCommittedLogs
+	Flavour   int       `json:"flavour"` // 0 plain, 1 monotonic, 2 commit tracking + RestoreCommittedLogs, 3 the same with a staged commit index visible at once
 	MaxAppend int       `json:"max_append"`
 	Trailing  uint64    `json:"trailing"`
 	Steps     []C10Step `json:"steps"`
@@ -90,7 +90,7 @@ func c10Run(c C10Case) c10Result {
 	h.Conf = func(cf *raft.Config) {
 		cf.MaxAppendEntries = c.MaxAppend
 		cf.TrailingLogs = c.Trailing
-		cf.RestoreCommittedLogs = c.Flavour == 2
+		cf.RestoreCommittedLogs = c.Flavour >= 2
 	}
 	h.Opts.Batching = c.MaxAppend%2 == 0
 	w := h.W
@@ -234,12 +234,24 @@ func c10Run(c C10Case) c10Result {
 			if extra := len(L.log) - L.commit; extra > 0 && s.N > 0 {
 				keep += s.N % (extra + 1)
 			}
+			if keep < 1 {
+				keep = 1 // every server holds the bootstrap configuration entry
+			}
 			nl := &mleader{id: map[string]string{"a": "b", "b": "a"}[L.id], term: L.term + 1, log: append([]Entry(nil), L.log[:keep]...), commit: L.commit, snap: L.snap}
 			if nl.snap > keep {
 				nl.snap = 0
 			}
 			L = nl
 			L.log = append(L.log, Entry{Term: L.term}) // the new leader's no-op
+			if s.N >= 4 {
+				// it has already committed its own entries with the other
+				// follower before it reaches this server
+				for k := 0; k < s.N-4; k++ {
+					L.log = append(L.log, Entry{Term: L.term, Payload: nextPayload})
+					nextPayload++
+				}
+				L.commit = len(L.log)
+			}
 			next = len(L.log) + 1
 			ok, stuck := catchUp(4*len(L.log) + 20)
 			alive = ok
@@ -296,7 +308,17 @@ func c10Run(c C10Case) c10Result {
 				_ = json.Unmarshal(sn.Data, &want)
 				from = sn.Meta.Index
 			}
-			if c.Flavour == 2 {
+			if c.Flavour >= 2 {
+				// what the durable commit index vouches for must be what the
+				// leaders really committed (the model leader's log is the truth)
+				for i := uint64(1); i <= img.Commit && int(i) <= len(L.log); i++ {
+					want := L.entry(int(i))
+					if l, ok := img.Logs[i]; ok && int(i) <= L.commit && (l.Term != want.Term || l.Type != want.Type || string(l.Data) != string(want.Data)) {
+						res.viol = append(res.viol, fmt.Sprintf("R2|C10/R2/persisted-commit-index-covers-an-uncommitted-entry|crash at %s: durable commit index %d covers entry %d/%d which is not the committed entry (%d) there; image: %s",
+							res.site, img.Commit, i, l.Term, L.log[i-1].Term, img.LogString()))
+						break
+					}
+				}
 				upto := img.Commit
 				if l := img.Last(); upto > l {
 					upto = l
@@ -343,7 +365,7 @@ func c10Run(c C10Case) c10Result {
 }
 
 func genC10(t *rapid.T) C10Case {
-	c := C10Case{Flavour: rapid.IntRange(0, 2).Draw(t, "flavour"), MaxAppend: rapid.SampledFrom([]int{1, 2, 3, 8}).Draw(t, "maxAppend"),
+	c := C10Case{Flavour: rapid.IntRange(0, 3).Draw(t, "flavour"), MaxAppend: rapid.SampledFrom([]int{1, 2, 3, 8}).Draw(t, "maxAppend"),
 		Trailing: rapid.SampledFrom([]uint64{0, 1, 2, 5, 10240}).Draw(t, "trailing")}
 	n := rapid.IntRange(2, 10).Draw(t, "steps")
 	ops := []string{"append", "append", "append", "commit", "commit", "snapshot", "snapshot", "install", "install", "switch", "switch", "vote"}
@@ -353,7 +375,7 @@ func genC10(t *rapid.T) C10Case {
 			s.N = rapid.IntRange(1, 6).Draw(t, "n")
 		}
 		if s.Op == "switch" {
-			s.N = rapid.IntRange(0, 3).Draw(t, "keep")
+			s.N = rapid.IntRange(0, 7).Draw(t, "keep") // >= 4: the new leader has committed its entries already
 		}
 		c.Steps = append(c.Steps, s)
 	}
